@@ -270,6 +270,7 @@ macro_rules! set_mod {
                     ("r", xi) => api::PublicKey::try_from_bytes(gen(xi).0.into_bytes()),
                     ("d", xi) => Ok(gen(xi).1.get_public_key()),
                     ("e", xi) => Ok(sk_of_spec(&format!("r:{}", xi))?.get_public_key()),
+                    ("f", xi) => api::PublicKey::try_from_bytes(gen(xi).1.get_public_key().into_bytes()),
                     ("db", h) => Ok(api::PrivateKey::try_from_bytes(arr::<SK_LEN>(&hex(h)))?.get_public_key()),
                     _ => panic!("harness: bad pk spec"),
                 }
